@@ -163,6 +163,24 @@ Theorem C05_exempt_readers_exact :
 Proof. exact gen_exempt_readers_exact. Qed.
 Print Assumptions C05_exempt_readers_exact.
 
+(* 10. CORNERS of the quantified space, stated explicitly.
+   (a) N = 0: the memory of an empty simulation satisfies mem_wf (so 6, 7, 8 apply to it); its view has no particles field.
+   (b) the empty field list is covered by 1 (induction base); arrays with count 0 are "not written" in 2, 6, 8 (no hypothesis
+       excludes them); relink loops with n = 0 records are the identity (8 of C17 quantifies l < n).
+   (c) count * element_size >= 2^32 is EXCLUDED by desc_wf / mem_wf.  What the code does there: reb_input_fields computes the
+       count as  (unsigned int)field.size / element_size  - the cast binds to field.size - so the 64-bit size is truncated to
+       32 bits BEFORE the division: a particles field of 2^32 + 128 bytes (33 554 433 particles) restores N = 1.  The
+       arithmetic of the model's formula, for the record: *)
+Example C05_empty_simulation_corner :
+  mem_wf particle_size table empty_sim_mem /\ absent_normal table (arrays_zero_length empty_sim_mem) /\
+  List.length (gen_view empty_sim_mem false) = 120%nat /\
+  flookup (gen_view empty_sim_mem false) (id_of_name table "particles") = None.
+Proof. exact empty_sim_corner. Qed.
+
+Example C05_count_wraps_beyond_4GiB_corner :
+  ((4294967296 + 128) mod 4294967296) / 128 = 1 /\ (4294967296 + 128) / 128 = 33554433.
+Proof. split; vm_compute; reflexivity. Qed.
+
 (* Non-vacuity: a DP7 descriptor with two bodies' worth of data satisfies desc_wf and is written. *)
 Example C05_hypotheses_inhabited :
   let d := mkdesc 96 DDp7 "ri_ias15.g" "ri_ias15.g" "ri_ias15.N_allocated" 56 in
